@@ -18,7 +18,11 @@ import RedisVerif.Model.Crdt
     confined to 4 consecutive bytes (hence every burst of ≤ 25 bits wherever it starts, and every
     byte-aligned burst of ≤ 32 bits) of a message of ANY length changes its CRC-32
     (`crc32_detects_window`, `crc32_detects_set`).
-  NOT proved here: bursts of 26..32 bits that straddle 5 bytes; any change of the message LENGTH.
+  * `raw_burst32_ne_zero` / `crc32_detects_burst32` — the same for a burst of at most 32 bits of the
+    bit stream (CRC-32 consumes each byte LSB first) that straddles FIVE bytes: a first byte that is
+    a non-zero multiple of 2^q, three arbitrary bytes, a last byte below 2^q.  Together with the
+    4-byte window: EVERY burst of at most 32 bits, wherever it starts, in a message of any length.
+  NOT proved here: damage wider than that; any change of the message LENGTH.
 -/
 namespace RedisVerif
 namespace Crc
@@ -246,6 +250,81 @@ theorem raw_window_ne_zero (a c b0 : Nat) (mid : Bytes) (hb0 : 0 < b0) (hb : b0 
   rw [Nat.zero_xor] at h4
   omega
 
+/-! ### bursts of up to 32 bits that straddle five bytes
+
+  CRC-32 consumes the bits of a byte LSB first, so a burst of at most 32 consecutive bits of the bit
+  stream that starts at bit `q` of a byte touches that byte only in bits `q..7` (its value is a
+  multiple of 2^q), three full bytes, and the bits `0..q-1` of a fifth byte (value below 2^q). -/
+
+theorem crcBitN_add (a b s : Nat) : crcBitN (a + b) s = crcBitN b (crcBitN a s) := by
+  induction a generalizing s with
+  | zero => simp [crcBitN]
+  | succ a ih =>
+    have : a + 1 + b = (a + b) + 1 := by omega
+    rw [this]
+    simp only [crcBitN]
+    exact ih (crcBit s)
+
+/-- the low `q` bits are zero: `q` bit steps are plain shifts -/
+theorem crcBitN_of_dvd (q t : Nat) : crcBitN q (2 ^ q * t) = t := by
+  induction q generalizing t with
+  | zero => simp [crcBitN]
+  | succ q ih =>
+    simp only [crcBitN]
+    have h2 : 2 ^ (q + 1) * t = 2 * (2 ^ q * t) := by rw [Nat.pow_succ]; ac_rfl
+    have : crcBit (2 ^ (q + 1) * t) = 2 ^ q * t := by
+      unfold crcBit
+      rw [h2, if_neg (by omega)]
+      omega
+    rw [this, ih]
+
+/-- an error pattern `zeros ++ [b0, m1, m2, m3, b4] ++ zeros` with `b0 ≠ 0` a multiple of 2^q and
+    `b4 < 2^q` — any burst of at most 32 bits of the bit stream, wherever it starts — leaves a
+    non-zero register -/
+theorem raw_burst32_ne_zero (a c q t m1 m2 m3 b4 : Nat) (hq : q ≤ 8) (ht : 0 < t) (hb0 : 2 ^ q * t < 256)
+    (h1 : m1 < 256) (h2 : m2 < 256) (h3 : m3 < 256) (h4 : b4 < 2 ^ q) :
+    raw 0 (List.replicate a 0 ++ [2 ^ q * t, m1, m2, m3, b4] ++ List.replicate c 0) ≠ 0 := by
+  intro h
+  have hb4 : b4 < 256 := Nat.lt_of_lt_of_le h4 (by
+    have : 2 ^ q ≤ 2 ^ 8 := Nat.pow_le_pow_right (by decide) hq
+    simpa using this)
+  rw [raw_append, raw_append, raw_zeros] at h
+  simp only [raw_cons, raw_nil] at h
+  -- the states after each byte of the window
+  have hs0 : crcByte 0 (2 ^ q * t) < 2 ^ 32 := crcByte_lt (by decide) hb0
+  have hs1 := crcByte_lt hs0 h1
+  have hs2 := crcByte_lt hs1 h2
+  have hs3 := crcByte_lt hs2 h3
+  have hs4 := crcByte_lt hs3 hb4
+  have e4 := raw_zeros_eq_zero c hs4 h
+  -- the last byte: register before it = b4
+  have e3 := crcByte_small hs3 hb4 (Nat.zero_le 24) (by rw [e4]; decide)
+  rw [e4, Nat.mul_zero, xor_eq_zero_iff] at e3
+  -- walk back over the three full bytes
+  have l3 : crcByte (crcByte (crcByte 0 (2 ^ q * t)) m1) m2 < 2 ^ (q + 8) :=
+    crcByte_small_lt hs2 h3 (by omega) (by rw [e3]; exact h4)
+  have l2 : crcByte (crcByte 0 (2 ^ q * t)) m1 < 2 ^ (q + 8 + 8) :=
+    crcByte_small_lt hs1 h2 (by omega) l3
+  have l1 : crcByte 0 (2 ^ q * t) < 2 ^ (q + 8 + 8 + 8) :=
+    crcByte_small_lt hs0 h1 (by omega) l2
+  -- the first byte: q plain shifts, then 8 - q steps that must have been plain shifts too
+  have h8 : q + (8 - q) = 8 := by omega
+  have hsplit : crcBitN (q + (8 - q)) (2 ^ q * t) = crcBitN (8 - q) t := by
+    rw [crcBitN_add, crcBitN_of_dvd]
+  rw [h8] at hsplit
+  rw [crcByte_eq, Nat.zero_xor, hsplit] at l1
+  have htlt : t < 2 ^ (8 - q) := by
+    have : 2 ^ q * t < 2 ^ q * 2 ^ (8 - q) := by
+      rw [← Nat.pow_add, h8]; exact hb0
+    exact Nat.lt_of_mul_lt_mul_left this
+  have e0 := crcBitN_small (8 - q) (s := t) (n := q + 8 + 8 + 8)
+    (Nat.lt_of_lt_of_le htlt (Nat.pow_le_pow_right (by decide) (by omega))) (by omega) l1
+  -- t = 2^(8-q) * r with t < 2^(8-q): r = 0, so t = 0
+  rcases Nat.eq_zero_or_pos (crcBitN (8 - q) t) with hz | hpos
+  · rw [hz, Nat.mul_zero] at e0; omega
+  · have : 2 ^ (8 - q) * 1 ≤ 2 ^ (8 - q) * crcBitN (8 - q) t := Nat.mul_le_mul_left _ hpos
+    omega
+
 /-! ## detection, stated on messages -/
 
 theorem xorB_length (a b : Bytes) (h : a.length = b.length) : (xorB a b).length = a.length := by
@@ -321,6 +400,19 @@ theorem crc32_detects_window (pre w w' post : Bytes) (hlen : w.length = w'.lengt
   rw [e, ← List.append_assoc, List.replicate_append_replicate] at heq
   exact raw_window_ne_zero (pre.length + k) post.length b0 mid hb0
     (hbytes b0 (by simp)) (fun m hm => hbytes m (by simp [hm])) (by omega) heq
+
+/-- two messages that agree outside five consecutive bytes whose difference is a burst of at most
+    32 bits of the bit stream (first difference byte a non-zero multiple of 2^q, last one below
+    2^q) have different CRC-32s -/
+theorem crc32_detects_burst32 (pre w w' post : Bytes) (q t m1 m2 m3 b4 : Nat) (hlen : w.length = w'.length)
+    (hx : xorB w w' = [2 ^ q * t, m1, m2, m3, b4]) (hq : q ≤ 8) (ht : 0 < t) (hb0 : 2 ^ q * t < 256)
+    (h1 : m1 < 256) (h2 : m2 < 256) (h3 : m3 < 256) (h4 : b4 < 2 ^ q) :
+    crc32 (pre ++ w ++ post) ≠ crc32 (pre ++ w' ++ post) := by
+  intro heq
+  have hl : (pre ++ w ++ post).length = (pre ++ w' ++ post).length := by simp [hlen]
+  rw [crc32_eq_iff _ _ hl, xorB_append _ _ _ _ (by simp [hlen]), xorB_append _ _ _ _ rfl,
+    xorB_self, xorB_self, hx] at heq
+  exact raw_burst32_ne_zero pre.length post.length q t m1 m2 m3 b4 hq ht hb0 h1 h2 h3 h4 heq
 
 /-- single-byte corruption (in particular every single-bit flip) of a message of any length -/
 theorem crc32_detects_set (m : Bytes) (i v : Nat) (hi : i < m.length) (hm : ∀ x ∈ m, x < 256) (hv : v < 256)
